@@ -128,6 +128,32 @@ for disp, method in ([(-4e-6, m_) for m_ in _METHODS] + [(4e-6, 'ggn_approx')] i
         wit.append({'key': f'line2:[80, 60]:dispersion {disp}:{method}', 'problems': [f'{type(e).__name__}: {e}'[:200]]})
     finally:
         SimParams.set_params({'nli_params': {'method': 'gn_model_analytic'}, 'raman_params': {'flag': False}})
+# the NLI computed on a few channels only ('computed_channels') and filled in for the others, on combs whose halves differ by 10 dB:
+# the channels outside the computed range still receive a noise power, never a negative one
+from gnpy.core.info import create_arbitrary_spectral_information
+for method, chans, powers in [(m_, c_, p_) for m_ in ('ggn_approx', 'ggn_spectrally_separated') for c_ in ([6, 7], [2, 7], [1, 6, 12], [5, 6, 7, 8])
+                              for p_ in ([3.0] * 6 + [-7.0] * 6, [-7.0] * 6 + [3.0] * 6, [0.0] * 12)]:
+    SimParams.set_params({'raman_params': {'flag': False}, 'nli_params': {'method': method, 'dispersion_tolerance': 1, 'phase_shift_tolerance': 0.1,
+                                                                         'computed_channels': chans}})
+    key = f'two fibres:{method}:computed channels {chans}:powers {powers} dBm'
+    try:
+        pch_ = 1e-3 * 10 ** (np.array(powers) / 10)
+        si_ = create_arbitrary_spectral_information(frequency=193.0e12 + 50e9 * np.arange(12), pch=pch_, baud_rate=32e9, slot_width=50e9,
+                                                    roll_off=0.15, tx_osnr=40.0, tx_power=pch_)
+        si_.add_ase(si_.pch * 1e-3)
+        si_.add_nli(si_.pch * 1e-3)
+        records.clear()
+        for uid_ in ('span1', 'span2'):
+            fib_ = E.Fiber(uid=uid_, type_variety='SSMF', params={'length': 80, 'loss_coef': 0.2, 'length_units': 'km', 'att_in': 0, 'con_in': 0.5,
+                                                                  'con_out': 0.5, 'dispersion': 1.67e-05, 'effective_area': 83e-12, 'pmd_coef': 1.265e-15})
+            fib_.ref_pch_in_dbm = 0.0
+            si_ = fib_(si_)
+        cases += 1
+        judge(key)
+    except Exception as e:
+        wit.append({'key': key, 'problems': [f'{type(e).__name__}: {e}'[:200]]})
+    finally:
+        SimParams.set_params({'nli_params': {'method': 'gn_model_analytic'}, 'raman_params': {'flag': False}})
 # Raman and multiband example networks shipped with the project
 from gnpy.tools.json_io import network_from_json
 for net_file, eq_file, sim, low_pump in (('raman_edfa_example_network.json', 'eqpt_config.json', 'sim_params.json', False),
